@@ -93,10 +93,14 @@ func observe(dir string, c TaskCase) (final, temp []string, tmp bool, moved int)
 	tmpDirs, _ := filepath.Glob(filepath.Join(dir, "_scipipe_tmp*"))
 	tmp = len(tmpDirs) > 0
 	for _, p := range c.Outs {
-		final = append(final, fileObs(filepath.Join(dir, p)))
+		fp, tp := filepath.Join(dir, p), p
+		if filepath.IsAbs(p) {
+			fp, tp = p, "__fsroot__"+p
+		}
+		final = append(final, fileObs(fp))
 		t := "-"
 		if tmp {
-			t = fileObs(filepath.Join(tmpDirs[0], p))
+			t = fileObs(filepath.Join(tmpDirs[0], tp))
 		}
 		temp = append(temp, t)
 	}
@@ -164,7 +168,21 @@ func runTaskCase(ctx *Ctx, c TaskCase) {
 	if c.Point != "end" {
 		env = append(env, fmt.Sprintf("VERIF_CRASH_AT=%s#%d", c.Point, maxInt(c.J, 1)))
 	}
-	rr := RunWorkflow(c.desc(), RunOpts{Env: env, Pre: pre})
+	dir := newDir()
+	// "@/" stands for an absolute path inside this run's own directory
+	for i, p := range c.Outs {
+		if strings.HasPrefix(p, "@/") {
+			c.Outs[i] = filepath.Join(dir, p[2:])
+			os.MkdirAll(filepath.Dir(c.Outs[i]), 0755)
+		}
+	}
+	for p, v := range pre {
+		if strings.HasPrefix(p, "@/") {
+			delete(pre, p)
+			pre[p[2:]] = v
+		}
+	}
+	rr := RunWorkflow(c.desc(), RunOpts{Env: env, Pre: pre, Dir: dir})
 	defer os.RemoveAll(rr.Dir)
 	streams := strings.TrimSuffix(strings.Repeat("0,", len(c.Outs)), ",")
 	preF := []string{}
@@ -239,6 +257,7 @@ func maxInt(a, b int) int {
 func genTaskCase(r *Rng, paths []string) TaskCase {
 	n := 1 + r.Intn(2)
 	c := TaskCase{}
+	c.Outs = nil
 	perm := r.Intn(len(paths))
 	for i := 0; i < n; i++ {
 		c.Outs = append(c.Outs, paths[(perm+i)%len(paths)])
@@ -265,7 +284,7 @@ func genTaskCase(r *Rng, paths []string) TaskCase {
 func checkC01(ctx *Ctx) {
 	ctx.Res.Rule = "one real task per case: 1-2 outputs (plain and nested paths), random behaviour (0-4 chunked writes to outputs / extra files, exit ok|code|SIGKILL), optional pre-existing output, killed at one of 13 instrumented points (or run to the end); non-trivial = the command writes something; distinct by full case. Each case checks the property on the real files and compares the footprint with the model state for that point."
 	r := NewRng(ctx.Seed)
-	paths := []string{"a.txt", "b.dat", "sub/c.txt", "d/e/f.txt", "g.h.i", "x_y-z.out"}
+	paths := []string{"a.txt", "b.dat", "sub/c.txt", "d/e/f.txt", "@/abs/g.txt", "x_y-z.out", "@/abs2/h.i"}
 	cases := []TaskCase{}
 	// systematic: a successful and a failing two-chunk writer at every point
 	for _, pt := range c01Points {
@@ -279,6 +298,11 @@ func checkC01(ctx *Ctx) {
 	}
 	cases = append(cases, TaskCase{Outs: []string{"a.txt", "sub/b.txt"}, Acts: []Act{{"w", 0, 1}, {"w", 1, 2}, {"x", 0, 3}}, Exit: "ok", Point: "fin.renamed", J: 1})
 	cases = append(cases, TaskCase{Outs: []string{"a.txt", "sub/b.txt"}, Acts: []Act{{"w", 0, 1}}, Exit: "ok", Point: "end"})
+	for _, pt := range []string{"in.cmd.after", "in.audit", "fin.renamed", "end"} {
+		for _, ex := range []string{"ok", "code", "killed"} {
+			cases = append(cases, TaskCase{Outs: []string{"@/abs/o.txt"}, Acts: []Act{{"w", 0, 4}, {"w", 0, 5}}, Exit: ex, Point: pt, J: 1})
+		}
+	}
 	n := 60
 	if ctx.Thorough() {
 		n = 900
